@@ -1965,47 +1965,47 @@ def normalize_enum(tier):
 
 CLAUSES = [
     Clause('wrap', oracle_wrap, wrap_cases, quick=4800, thorough=160000,
-           min_share={'scaled': 0.22, 'scale_1': 0.23, 'scale_si': 0.08, 'scale_small': 0.12, 'scale_large': 0.09,
-                      'nt': 0.35, 'lefthanded': 0.2, 'tilted': 0.3, 'mixed_pbc': 0.3, 'pbc3': 0.12, 'pbc0': 0.04, 'grew': 0.25,
-                      'wrapped': 0.3, 'multi_image': 0.25, 'far': 0.04, 'props': 0.3, 'flags_returned': 0.35, 'onface': 0.4,
+           min_share={'scaled': 0.22, 'scale_1': 0.22, 'scale_si': 0.08, 'scale_small': 0.12, 'scale_large': 0.09,
+                      'nt': 0.34, 'lefthanded': 0.2, 'tilted': 0.3, 'mixed_pbc': 0.3, 'pbc3': 0.12, 'pbc0': 0.04, 'grew': 0.25,
+                      'wrapped': 0.3, 'multi_image': 0.25, 'far': 0.04, 'props': 0.3, 'flags_returned': 0.34, 'onface': 0.36,
                       'hist': 0.25, 'pbc_changed': 0.12, 'pbc_inplace': 0.07, 'inplace_toggled_out': 0.05, 'pbc_elem': 0.1,
-                      'pbc_setter': 0.08, 'forms': 0.35, 'pbc_form': 0.28, 'box_form': 0.2, 'pos_scaled_ctor': 0.06,
+                      'pbc_setter': 0.079, 'forms': 0.35, 'pbc_form': 0.28, 'box_form': 0.2, 'pos_scaled_ctor': 0.051,
                       'pos_list': 0.05, 'hist_rebuild': 0.05, 'hist_read': 0.06, 'hist_box_set': 0.025, 'hist_pos_edit': 0.03,
                       'prior_wrap': 0.03, 'prior_scaled_read': 0.07,
-                      'sym': 0.16, 'sym_diag': 0.11, 'sym_perm': 0.05, 'lowertri_negdiag': 0.09, 'hist_box_reversed': 0.018,
-                      'pos_int': 0.08, 'pos_int_not64': 0.05, 'pos_int_narrow': 0.025, 'pos_int_unsigned': 0.02, 'pos_int_bool': 0.008,
+                      'sym': 0.15, 'sym_diag': 0.1, 'sym_perm': 0.043, 'lowertri_negdiag': 0.085, 'hist_box_reversed': 0.018,
+                      'pos_int': 0.08, 'pos_int_not64': 0.041, 'pos_int_narrow': 0.024, 'pos_int_unsigned': 0.017, 'pos_int_bool': 0.008,
                       # generator classes carried over from other properties (result ledger, caller side, storage dtypes of the cell,
                       # near-threshold values, many decades in one call): half of the smallest share seen at seeds 1-4
-                      'after': 0.173, 'ledger': 0.145, 'ledger_other': 0.079, 'ledger_same_n': 0.017, 'again': 0.069, 'caller_out': 0.036,
+                      'after': 0.173, 'ledger': 0.145, 'ledger_other': 0.078, 'ledger_same_n': 0.017, 'again': 0.069, 'caller_out': 0.036,
                       'caller_in': 0.14, 'caller_in_before': 0.1, 'reuse': 0.032, 'near_face': 0.189, 'near_face_decided': 0.119,
-                      'near_face_1e-7': 0.085, 'near_cell': 0.11, 'tiny_tilt': 0.077, 'tiny_tilt_floored': 0.053, 'tiny_tilt_1e-9_1e-5': 0.024,
+                      'near_face_1e-7': 0.085, 'near_cell': 0.11, 'tiny_tilt': 0.077, 'tiny_tilt_floored': 0.053, 'tiny_tilt_1e-9_1e-5': 0.023,
                       'tiny_rot': 0.028, 'near_equal_len': 0.038, 'decades': 0.03, 'single_row': 0.046, 'box_dtype': 0.097, 'box_f32': 0.056,
                       'box_f16': 0.013, 'box_int': 0.016, 'pbc_int8': 0.059},
            desc='wrap: moves = imageflags.vects on periodic axes only, periodic vectors unchanged, cell only grows, all atoms inside, properties untouched; after any history, every input form, every length unit'),
     Clause('wrap_exact', oracle_wrap_exact, wrap_exact_cases, quick=2100, thorough=55000,
-           min_share={'scaled': 0.22, 'scale_1': 0.23, 'scale_si': 0.08, 'scale_small': 0.12, 'scale_large': 0.09,
-                      'exact': 0.5, 'nt': 0.35, 'onface': 0.4, 'far': 0.3, 'pbc3': 0.1, 'mixed_pbc': 0.3,
+           min_share={'scaled': 0.22, 'scale_1': 0.22, 'scale_si': 0.08, 'scale_small': 0.12, 'scale_large': 0.09,
+                      'exact': 0.47, 'nt': 0.34, 'onface': 0.36, 'far': 0.3, 'pbc3': 0.1, 'mixed_pbc': 0.3,
                       'sym': 0.15, 'sym_diag': 0.09, 'sym_perm': 0.06, 'lowertri_negdiag': 0.07,
                       'hist': 0.25, 'pbc_changed': 0.15, 'pbc_inplace': 0.08, 'inplace_toggled_out': 0.07, 'forms': 0.35,
-                      'pos_int': 0.08, 'pos_int_not64': 0.05, 'pos_int_narrow': 0.025, 'pos_int_unsigned': 0.02, 'pos_int_bool': 0.008, 'pos_float32': 0.02,
-                      'after': 0.188, 'ledger': 0.154, 'ledger_other': 0.075, 'ledger_same_n': 0.015, 'again': 0.073, 'caller_out': 0.04,
+                      'pos_int': 0.08, 'pos_int_not64': 0.041, 'pos_int_narrow': 0.024, 'pos_int_unsigned': 0.017, 'pos_int_bool': 0.008, 'pos_float32': 0.02,
+                      'after': 0.188, 'ledger': 0.154, 'ledger_other': 0.075, 'ledger_same_n': 0.015, 'again': 0.073, 'caller_out': 0.039,
                       'caller_in': 0.125, 'caller_in_before': 0.1, 'reuse': 0.028, 'near_face': 0.05, 'near_face_decided': 0.041,
                       'near_face_1e-7': 0.035, 'box_dtype': 0.097, 'box_f32': 0.064, 'box_f16': 0.014, 'box_int': 0.012, 'pbc_int8': 0.068},
            desc='wrap on exactly representable inputs (atoms exactly on faces, far outside): zero tolerance, zero band on periodic axes; after exactness-preserving histories'),
     Clause('normalize', oracle_normalize, normalize_cases, quick=3300, thorough=110000,
-           min_share={'scaled': 0.22, 'scale_1': 0.23, 'scale_si': 0.07, 'scale_small': 0.12, 'scale_large': 0.09,
-                      'nt': 0.35, 'lefthanded': 0.2, 'rotated': 0.2, 'tilted': 0.3, 'pairs': 0.35, 'transform_returned': 0.3,
+           min_share={'scaled': 0.22, 'scale_1': 0.22, 'scale_si': 0.07, 'scale_small': 0.12, 'scale_large': 0.09,
+                      'nt': 0.34, 'lefthanded': 0.2, 'rotated': 0.16, 'tilted': 0.3, 'pairs': 0.35, 'transform_returned': 0.3,
                       'via_function': 0.12, 'far': 0.04, 'props': 0.3,
                       'hist': 0.35, 'pbc_changed': 0.3, 'pbc_inplace': 0.2, 'inplace_toggled_out': 0.15, 'forms': 0.35,
                       'hist_box_set': 0.03, 'hist_pos_edit': 0.03, 'hist_rebuild': 0.05,
-                      'sym': 0.16, 'sym_diag': 0.11, 'sym_perm': 0.05, 'lowertri_negdiag': 0.09, 'lammps_form_input': 0.2,
+                      'sym': 0.15, 'sym_diag': 0.1, 'sym_perm': 0.043, 'lowertri_negdiag': 0.085, 'lammps_form_input': 0.2,
                       'hist_box_reversed': 0.02,
-                      'pos_int': 0.08, 'pos_int_not64': 0.05, 'pos_int_narrow': 0.025, 'pos_int_unsigned': 0.02, 'pos_int_bool': 0.008,
+                      'pos_int': 0.08, 'pos_int_not64': 0.041, 'pos_int_narrow': 0.024, 'pos_int_unsigned': 0.017, 'pos_int_bool': 0.008,
                       'after': 0.177, 'ledger': 0.15, 'ledger_other': 0.07, 'ledger_same_n': 0.014, 'again': 0.073, 'caller_out': 0.03,
                       'caller_in': 0.135, 'caller_in_before': 0.1, 'reuse': 0.035, 'near_face': 0.169, 'near_face_decided': 0.108,
-                      'near_face_1e-7': 0.076, 'near_cell': 0.101, 'tiny_tilt': 0.07, 'tiny_tilt_floored': 0.048, 'tiny_tilt_1e-9_1e-5': 0.024,
-                      'tiny_rot': 0.024, 'near_equal_len': 0.034, 'decades': 0.019, 'box_dtype': 0.098, 'box_f32': 0.055, 'box_f16': 0.017,
-                      'box_int': 0.014, 'pbc_int8': 0.054, 'via_style_given': 0.12, 'floor_active': 0.013},
+                      'near_face_1e-7': 0.076, 'near_cell': 0.101, 'tiny_tilt': 0.07, 'tiny_tilt_floored': 0.048, 'tiny_tilt_1e-9_1e-5': 0.023,
+                      'tiny_rot': 0.019, 'near_equal_len': 0.03, 'decades': 0.019, 'box_dtype': 0.098, 'box_f32': 0.055, 'box_f16': 0.017,
+                      'box_int': 0.014, 'pbc_int8': 0.054, 'via_style_given': 0.11, 'floor_active': 0.011},
            max_share={'illcond_skipped': 0.05},
            desc='normalize: input untouched, new right-handed LAMMPS cell with same lengths/angles/volume, proper rotation maps old vectors to new, atoms inside, nearest-image distances unchanged; after any history ending fully periodic, every input form, every length unit'),
     Clause('wrap_enum', oracle_wrap, enumerate=wrap_enum,
@@ -2013,7 +2013,7 @@ CLAUSES = [
                       'hist_other_wrap': 0.15, 'flags_returned': 0.25, 'mixed_pbc': 0.37, 'pbc3': 0.06, 'grew': 0.19, 'wrapped': 0.2},
            desc='wrap for every combination, in every order, of: periodicity at construction (8) / changed afterwards in place or by the setter, an earlier wrap (with / without flags) / normalize (method / function with transform) / wrap of another system before and after that change, return_imageflags; each followed by a repetition on a copy'),
     Clause('normalize_enum', oracle_normalize, enumerate=normalize_enum,
-           min_share={'nt': 0.2, 'again': 0.5, 'ledger': 0.5, 'pbc_inplace': 0.3, 'inplace_toggled_out': 0.14, 'prior_wrap': 0.27, 'hist_read': 0.18, 'hist_pos_edit': 0.16, 'hist_box_set': 0.16,
+           min_share={'nt': 0.2, 'again': 0.5, 'ledger': 0.5, 'pbc_inplace': 0.25, 'inplace_toggled_out': 0.13, 'prior_wrap': 0.27, 'hist_read': 0.18, 'hist_pos_edit': 0.16, 'hist_box_set': 0.16,
                       'hist_normalize_variant': 0.1, 'hist_other_wrap': 0.15, 'transform_returned': 0.25, 'via_style_given': 0.25, 'via_function': 0.12},
            desc='normalize for every combination, in every order, of: how it is called (method, style given by keyword / positionally, function) x return_transform, periodicity at construction / made periodic afterwards, an earlier wrap / normalize / wrap of another system before and after that change; each followed by a repetition'),
 ]
